@@ -83,7 +83,7 @@ Definition parse_cfg (f : list string) : option (cfg * list string) :=
       match N_of_dec md, N_of_hex hip, N_of_hex hmac, N_of_hex rip, N_of_hex rmac,
             N_of_hex home, N_of_dec hbits, N_of_hex nf, N_of_dec nbits, N_of_hex dns with
       | Some md, Some hip, Some hmac, Some rip, Some rmac, Some home, Some hbits, Some nf, Some nbits, Some dns =>
-          Some (mkCfg md hip hmac rip rmac home hbits nf nbits dns, rest)
+          Some (fresh_cfg md hip hmac rip rmac home hbits nf nbits dns, rest)
       | _, _, _, _, _, _, _, _, _, _ => None
       end
   | _ => None
